@@ -30,6 +30,8 @@ C01_Blocks == Stmts({0}, Single \cup Multi \cup {"tri3", "pair2"}, {"none"})
               \cup {Txt(0, 1), Txt(0, 2), Blank}
               \* an indented example (as under a google tag) whose want is directly followed by a flush-left prompt, and the reverse
               \cup {St(1, "one", "a", "none"), St(1, "expr", "a", "none"), St(1, "cmp2", "c", "none"), Txt(1, 1)}
+              \* valid Python the parser cannot read today (known findings F9, F10): kept in the space so that the check reports them
+              \cup {St(0, "f9", "c", "none"), St(0, "f9", "a", "none"), St(0, "f10", "c", "none")}
 
 \* ---- C19: dump (programs as C01, smaller shape set, plus a star-import statement)
 C19_Blocks == Stmts({0}, {"one", "expr", "cmt", "ml2", "cmp2", "deco3", "tri3", "star"}, {"none"})
